@@ -37,6 +37,7 @@ static struct reg * shadow[64][2];	/* what the client believes is registered per
 static long next_rid;
 static int done_flag;
 static long cancel_af;		/* -1: refuse every allocation during cancel calls */
+static int net_used;		/* a descriptor registration succeeded: events_network.c is initialised */
 
 static char ** tok;
 static int ntok, tpos;
@@ -182,13 +183,20 @@ exec_op(struct op * o)
 			w_emit("FN %ld %ld %s", o->a[1], o->a[2], errclass(e));
 		else {
 			registered(g);
+			net_used = 1;
 			if (g->fd >= 0 && g->fd < 64 && (g->dir == 0 || g->dir == 1))
 				shadow[g->fd][g->dir] = g;
 			w_emit("R %ld n %ld %ld", g->rid, o->a[1], o->a[2]);
 		}
 		break;
 	case O_NC:
-		lib_enter(cancel_af);
+		/*
+		 * Before its first use events_network_cancel has to create the
+		 * (empty) socket list and reports ENOMEM instead of ENOENT if it
+		 * cannot; there is nothing to cancel in that state, so allocations
+		 * are refused only once the module is initialised.
+		 */
+		lib_enter(net_used ? cancel_af : 0);
 		rc = events_network_cancel((int)o->a[0], (int)o->a[1]);
 		e = errno;
 		lib_leave();
